@@ -11,3 +11,4 @@ INVARIANT FoldAgrees
 INVARIANT NeedSound
 INVARIANT NoDevUsed
 INVARIANT DefsSplit
+INVARIANT DevsAccounted
